@@ -62,6 +62,9 @@ def elem_of(t):
                 if shape[0] == "index":
                     return ("enumerate-index",), rest, ("next", c[3] if len(c) > 3 else None)
             return None
+        if x[0] == "call" and x[2] and any(x[1].endswith(sfx) for sfx in TRANSPARENT_SUFFIX) and x[1].rsplit("::", 1)[-1] not in ("iter", "into_iter", "iter_mut"):
+            x = x[2][0]
+            continue
         s = strip(x)
         if s is not x and s != x:
             x = s
